@@ -34,5 +34,27 @@ try:
 except Exception as e:  # pragma: no cover
     failed += 1
     print("selftest FAILED: mc/rules/base.py: %r" % (e,))
+try:
+    # stored inputs of the weave family: every pattern must be what its record says (a single closed strand of that
+    # length with that many crossings) according to the C10 oracle that judges it at run time
+    import json
+
+    from props.c06 import frame_edges
+    from props.c10 import oracle
+
+    weaves = json.load(open(os.path.join(HERE, "mc", "data", "weaves.json")))
+    nw = 0
+    for name, entries in weaves.items():
+        h, w = (int(t) for t in name.split("x"))
+        segs = frame_edges(h, w)
+        for e in entries:
+            pat = [bool(b) for b in e["pattern"]]
+            ok, vis, crs = oracle(h, w, segs, pat, True)
+            assert ok and sum(pat) == e["length"] and sum(crs) == e["crossings"], (name, e["length"])
+            nw += 1
+    print("selftest ok: mc/data/weaves.json (%d stored strands re-judged)" % nw)
+except Exception as e:  # pragma: no cover
+    failed += 1
+    print("selftest FAILED: mc/data/weaves.json: %r" % (e,))
 os.chmod(os.path.join(HERE, "check"), 0o755)
 sys.exit(1 if failed else 0)
